@@ -107,6 +107,7 @@ type sched struct {
 	tracing   bool
 	symmetric []string
 	idleFires int
+	freeCost  int
 }
 
 var s = &sched{}
@@ -123,6 +124,11 @@ type Config struct {
 	// one class that are pending on the same operation on the same object only
 	// the lowest id is offered to the chooser.
 	Symmetric []string
+	// FreeSwitchCost is the deviation cost of picking a non-default thread when
+	// the running thread is blocked or finished (default 0: only preemptions
+	// cost, as in preemption bounding; 1: every departure from the default
+	// schedule costs, i.e. delay bounding - used for scenarios with many threads).
+	FreeSwitchCost int
 }
 
 // Steps returns the number of scheduling steps taken so far in this execution.
@@ -144,7 +150,7 @@ func Run(cfg Config, ch Chooser, main func()) Outcome {
 	}
 	*s = sched{active: true, chooser: ch, maxSteps: cfg.MaxSteps, monitor: cfg.Monitor,
 		nowMs: cfg.StartMs, timerBudg: cfg.TimerBudget, finished: make(chan Outcome, 1),
-		chans: map[uintptr]*chanState{}, tracing: cfg.Trace, symmetric: cfg.Symmetric}
+		chans: map[uintptr]*chanState{}, tracing: cfg.Trace, symmetric: cfg.Symmetric, freeCost: cfg.FreeSwitchCost}
 	if s.maxSteps == 0 {
 		s.maxSteps = 200000
 	}
@@ -451,8 +457,12 @@ func (s *sched) reschedule(self *thread, exiting bool) {
 			}
 			costs := make([]int, n)
 			for i := range costs {
-				if selfEnabled && i > 0 {
-					costs[i] = 1
+				if i > 0 {
+					if selfEnabled {
+						costs[i] = 1
+					} else {
+						costs[i] = s.freeCost
+					}
 				}
 			}
 			if envAlt {
